@@ -570,6 +570,10 @@ func ruleSliceCap(r *Run) {
 				r.ok(key, in.Pos(), "the operand's length is known to be >= %d", k)
 				return
 			}
+			if p.capCovered(sl.X, guardsOf(sl.Block()), func(v ssa.Value) bool { c, ok := constInt(p.stripConvAll(v)); return ok && c >= k }, 0) {
+				r.ok(key, in.Pos(), "capacity >= %d is established for every value the operand may be (make or cap test)", k)
+				return
+			}
 			// capacity: on every path from entry to the reslice, either a make with cap >= k was stored into the variable, or a cap test excluded cap < k
 			cell := ssa.Value(nil)
 			if u, ok := sl.X.(*ssa.UnOp); ok && u.Op == token.MUL {
@@ -670,6 +674,86 @@ func ruleSliceCap(r *Run) {
 	}
 }
 
+// capCovered: the capacity of slice value v is known to reach the bound recognised by sameH - per value v may be:
+// it was (re)made with that capacity, or `cap(v) < bound` was excluded where that value is selected; a transparent
+// helper (ensureCap(b, n), frameHeaderBuf(b)) is judged on its returns with its parameters standing for the arguments.
+func (p *Program) capCovered(v ssa.Value, facts []guardFact, sameH func(ssa.Value) bool, depth int) bool {
+	capExcluded := func(facts []guardFact, v ssa.Value, sameH func(ssa.Value) bool) bool {
+		for _, g := range facts {
+			x, y, op, ok := g.cmp()
+			if !ok {
+				continue
+			}
+			cc, ok := x.(*ssa.Call)
+			if !ok || calleeName(cc) != "builtin.cap" {
+				continue
+			}
+			if cc.Call.Args[0] != v && !p.sameValue(cc.Call.Args[0], v) {
+				continue
+			}
+			if sameH(y) && op == token.GEQ {
+				return true
+			}
+		}
+		return false
+	}
+	if depth > 6 {
+		return false
+	}
+	switch x := v.(type) {
+	case *ssa.Phi:
+		for i, e := range x.Edges {
+			pred := x.Block().Preds[i]
+			if !p.capCovered(e, append(append([]guardFact{}, guardsOf(pred)...), edgeFact(pred, x.Block())...), sameH, depth+1) {
+				return false
+			}
+		}
+		return len(x.Edges) > 0
+	case *ssa.Call:
+		if callee := x.Call.StaticCallee(); callee != nil && !x.Call.IsInvoke() && p.isTransparent(callee) && callee.Signature.Results().Len() == 1 {
+			inner := func(w ssa.Value) bool {
+				w = p.stripConvAll(w)
+				if par, ok := w.(*ssa.Parameter); ok && par.Parent() == callee {
+					if a := argAt(x, paramIndex(par)); a != nil {
+						return sameH(a)
+					}
+				}
+				return sameH(w) // a constant bound inside the helper
+			}
+			all, nret := true, 0
+			eachInstr(callee, func(in ssa.Instruction) {
+				if rt, ok := in.(*ssa.Return); ok {
+					nret++
+					if !p.capCovered(rt.Results[0], guardsOf(rt.Block()), inner, depth+1) {
+						all = false
+					}
+				}
+			})
+			return all && nret > 0
+		}
+	case *ssa.Slice:
+		// a reslice keeps the capacity of its operand when it has no max: v[:n] / v[a:b]
+		if x.Max == nil && x.Low == nil {
+			return p.capCovered(x.X, facts, sameH, depth+1)
+		}
+	}
+	// (a) made with enough capacity
+	for _, o := range p.origins(v, originOpts{local: true}) {
+		if ms, ok := o.(*ssa.MakeSlice); ok {
+			if sameH(ms.Cap) {
+				return true
+			}
+			if c, ok := ms.Cap.(*ssa.Call); ok {
+				if callee := staticCallee(c); callee != nil && funcName(callee) == "larking.io/larking.growcap" && len(c.Call.Args) == 2 && sameH(c.Call.Args[1]) {
+					return true
+				}
+			}
+		}
+	}
+	// (b) a cap test of that very value excluded cap < bound where it is selected
+	return capExcluded(facts, v, sameH)
+}
+
 // sliceCapVar handles b[len(b):h] with a non-constant h.
 func (p *Program) sliceCapVar(r *Run, fn *ssa.Function, sl *ssa.Slice, site, n *int) {
 	if _, ok := sl.X.Type().Underlying().(*types.Slice); !ok {
@@ -693,82 +777,7 @@ func (p *Program) sliceCapVar(r *Run, fn *ssa.Function, sl *ssa.Slice, site, n *
 		v = p.stripConvAll(v)
 		return v == h || p.sameValue(v, h)
 	}
-	// establishing facts, per value the operand may be: it was (re)made with capacity >= h, or `cap(v) < h` was
-	// excluded where that value is selected; a transparent helper (ensureCap(b, n)) is judged on its returns with
-	// its parameter standing for the argument
-	capExcluded := func(facts []guardFact, v ssa.Value, sameH func(ssa.Value) bool) bool {
-		for _, g := range facts {
-			x, y, op, ok := g.cmp()
-			if !ok {
-				continue
-			}
-			cc, ok := x.(*ssa.Call)
-			if !ok || calleeName(cc) != "builtin.cap" {
-				continue
-			}
-			if cc.Call.Args[0] != v && !p.sameValue(cc.Call.Args[0], v) {
-				continue
-			}
-			if sameH(y) && op == token.GEQ {
-				return true
-			}
-		}
-		return false
-	}
-	var covered func(v ssa.Value, facts []guardFact, sameH func(ssa.Value) bool, depth int) bool
-	covered = func(v ssa.Value, facts []guardFact, sameH func(ssa.Value) bool, depth int) bool {
-		if depth > 6 {
-			return false
-		}
-		switch x := v.(type) {
-		case *ssa.Phi:
-			for i, e := range x.Edges {
-				pred := x.Block().Preds[i]
-				if !covered(e, append(append([]guardFact{}, guardsOf(pred)...), edgeFact(pred, x.Block())...), sameH, depth+1) {
-					return false
-				}
-			}
-			return len(x.Edges) > 0
-		case *ssa.Call:
-			if callee := x.Call.StaticCallee(); callee != nil && !x.Call.IsInvoke() && p.isTransparent(callee) && callee.Signature.Results().Len() == 1 {
-				inner := func(w ssa.Value) bool {
-					w = p.stripConvAll(w)
-					if par, ok := w.(*ssa.Parameter); ok && par.Parent() == callee {
-						if a := argAt(x, paramIndex(par)); a != nil {
-							return sameH(a)
-						}
-					}
-					return false
-				}
-				all, nret := true, 0
-				eachInstr(callee, func(in ssa.Instruction) {
-					if rt, ok := in.(*ssa.Return); ok {
-						nret++
-						if !covered(rt.Results[0], guardsOf(rt.Block()), inner, depth+1) {
-							all = false
-						}
-					}
-				})
-				return all && nret > 0
-			}
-		}
-		// (a) made with enough capacity
-		for _, o := range p.origins(v, originOpts{local: true}) {
-			if ms, ok := o.(*ssa.MakeSlice); ok {
-				if sameH(ms.Cap) {
-					return true
-				}
-				if c, ok := ms.Cap.(*ssa.Call); ok {
-					if callee := staticCallee(c); callee != nil && funcName(callee) == "larking.io/larking.growcap" && len(c.Call.Args) == 2 && sameH(c.Call.Args[1]) {
-						return true
-					}
-				}
-			}
-		}
-		// (b) a cap test of that very value excluded cap < h where it is selected
-		return capExcluded(facts, v, sameH)
-	}
-	okAll := covered(sl.X, guardsOf(sl.Block()), sameH, 0)
+	okAll := p.capCovered(sl.X, guardsOf(sl.Block()), sameH, 0)
 	r.check(okAll, key, sl.Pos(), "the buffer is extended to a bound that its capacity is known to cover (made with that capacity, or a cap test of that same bound)",
 		"the buffer is extended with b[len(b):h] although its capacity is not known to cover h: the capacity test / allocation uses another quantity than the bound that is sliced to (slice bounds out of range for sizes within that difference)")
 }
@@ -796,7 +805,8 @@ func ruleReadFullEOF(r *Run) {
 	p := r.P
 	reach := p.reachRequest()
 	n := 0
-	isReadOn := func(in ssa.Instruction) (ssa.Value, bool) {
+	var isReadOnDepth func(in ssa.Instruction, depth int) (ssa.Value, bool)
+	isReadOnDepth = func(in ssa.Instruction, depth int) (ssa.Value, bool) {
 		c, ok := in.(ssa.CallInstruction)
 		if !ok {
 			return nil, false
@@ -807,22 +817,16 @@ func ruleReadFullEOF(r *Run) {
 		case c.Common().IsInvoke() && c.Common().Method.Name() == "Read" && c.Common().Method.Pkg() != nil && c.Common().Method.Pkg().Path() == "io":
 			return c.Common().Value, true
 		}
-		// a transparent helper that reads from one of its parameters (an extracted grow-and-read block)
-		if callee := c.Common().StaticCallee(); callee != nil && !c.Common().IsInvoke() && p.isTransparent(callee) {
+		// a transparent helper that reads from one of its parameters (an extracted grow-and-read block), possibly
+		// through a further helper
+		if callee := c.Common().StaticCallee(); callee != nil && !c.Common().IsInvoke() && p.isTransparent(callee) && depth < 3 {
 			var rd ssa.Value
 			eachInstr(callee, func(y ssa.Instruction) {
-				yc, ok := y.(ssa.CallInstruction)
+				v, ok := isReadOnDepth(y, depth+1)
 				if !ok {
 					return
 				}
-				var v ssa.Value
-				switch {
-				case calleeName(yc) == "io.ReadFull" || calleeName(yc) == "io.ReadAtLeast":
-					v = yc.Common().Args[0]
-				case isRawRead(yc):
-					v = yc.Common().Value
-				}
-				if par, ok := v.(*ssa.Parameter); ok {
+				if par, ok := v.(*ssa.Parameter); ok && par.Parent() == callee {
 					if a := argAt(c, paramIndex(par)); a != nil {
 						rd = a
 					}
@@ -834,6 +838,7 @@ func ruleReadFullEOF(r *Run) {
 		}
 		return nil, false
 	}
+	isReadOn := func(in ssa.Instruction) (ssa.Value, bool) { return isReadOnDepth(in, 0) }
 	for _, fn := range sortedFuncs(reach) {
 		site := 0
 		eachInstr(fn, func(in ssa.Instruction) {
